@@ -60,6 +60,10 @@ def ensure_repo_on_path():
     if sys.path[0] != REPO:
         sys.path.insert(0, REPO)
     os.environ.setdefault(GUARD, '1')
+    # subprocesses (the supp server, fresh interpreters) must import the same checkout
+    pp = os.environ.get('PYTHONPATH', '')
+    if REPO not in pp.split(os.pathsep):
+        os.environ['PYTHONPATH'] = REPO + (os.pathsep + pp if pp else '')
     import supp  # noqa
     real = os.path.dirname(os.path.dirname(os.path.abspath(supp.__file__)))
     if os.path.realpath(real) != os.path.realpath(REPO):
